@@ -11,6 +11,11 @@ THEOREMS = [
     "C14_replace_atomic",
     "C14_wf_replace_atomic",
     "C14_wf_io_survives",
+    "C14_dry_run_exact",
+    "C14_dry_run_is_noclash",
+    "C14_refused_assignment_untouched",
+    "C14_copy_panel_forward_then_store",
+    "C14_setter_order_witness",
     "C14_head_replace_atomic",
     "C14_head_inherits",
     "C14_preserves_C12_C13",
@@ -214,7 +219,10 @@ def _build(case):
             pass
     # nodes below the ones named so far (children of macro children / macro candidates): depth 2
     known = {id(n) for n in names.values()}
-    for name in list(order):
+    k = 0
+    while k < len(order):  # the list grows: nodes below nested macros are reached too
+        name = order[k]
+        k += 1
         n = names[name]
         if _is_comp(n):
             for label, ch in n.children.items():
@@ -964,6 +972,57 @@ def _nested_case(rng, tier):
     return case
 
 
+KEY_CHILDREN = [("a", "Kx"), ("a__b", "Kc"), ("a__x", "Kx"), ("b", "Kbc"), ("a__b__c", "Kx"), ("x", "Kxo"), ("a__o", "Kx")]
+KEY_CANDS = ["Kbc", "Kxo", "Kc", "Kx", "Pxy"]
+
+
+def _keys_case(rng, tier):
+    """child and channel labels that contain the key delimiter, are prefixes of each other or equal canonical keys
+    of siblings (`a` + `b__c` vs `a__b` + `c`), with and without renaming maps: the keys of the workflow's IO view"""
+    kids = rng.sample(KEY_CHILDREN, rng.randint(2, 4))
+    if rng.random() < 0.6 and ("a", "Kx") not in kids:
+        kids[0] = ("a", "Kx")
+    children = [list(k) for k in kids]
+    labs = [k[0] for k in kids]
+    from .nodes_c14 import SHAPE  # noqa: F401  (labels only)
+    ins = {"Kx": ["x"], "Kc": ["c", "d"], "Kbc": ["x", "b__c"], "Kxo": ["x", "x__y"], "Pxy": ["x", "y"]}
+    outs = {"Kx": ["o"], "Kc": ["o"], "Kbc": ["o"], "Kxo": ["o", "b__o"], "Pxy": ["o"]}
+    data = []
+    for _ in range(rng.randint(0, 3)):
+        i, j = rng.sample(range(len(kids)), 2)
+        data.append([labs[i], rng.choice(outs[kids[i][1]]), labs[j], rng.choice(ins[kids[j][1]])])
+    case = {"top": "wf", "children": children, "data": data,
+            "cands": [[f"r{i}", c] for i, c in enumerate(rng.sample(KEY_CANDS, 3))], "ops": []}
+    if rng.random() < 0.4:
+        keys = [f"{l}__{c}" for l, k in kids for c in ins[k]] + ["a__b__c", "a__x__y", "b__b__c"]
+        case["maps"] = {"in": [[rng.choice(keys), rng.choice(keys + ["foo", None])] for _ in range(rng.randint(1, 2))]}
+        if len({m[0] for m in case["maps"]["in"]}) < len(case["maps"]["in"]):
+            case["maps"]["in"] = case["maps"]["in"][:1]
+    for _ in range(rng.randint(1, 2)):
+        case["ops"].append(["replace", "@wf", rng.choice(labs), rng.choice(case["cands"])[0]])
+    return case
+
+
+def _chain_case(rng, tier):
+    """copy_io (hard or soft values) onto macros whose inputs forward through value-link chains that get stricter
+    downstream (`MacChain.q -> inner.b -> scale.y: int`): a refusal happens below the channel assigned to"""
+    children = [["s", "Mpq"], ["t", "Mpq"], ["u", "Pxy"]]
+    vals = [["s", "q", rng.choice(["text", 7])], ["s", "p", rng.choice(["text", 8, 9])], ["t", "q", rng.choice(["w", 5])]]
+    data = [["u", "o", "t", "p"]] if rng.random() < 0.5 else []
+    case = {"top": "wf", "children": children, "data": data, "vals": vals,
+            "cands": [["r0", "MacChain"], ["r1", "MacChainIn"], ["r2", "MacIn"], ["r3", "Mpq"]], "ops": []}
+    if rng.random() < 0.3:
+        case["ops"].append(["setval", "r0", "q", rng.choice([1, 2])])
+    for _ in range(rng.randint(1, 3)):
+        r = rng.random()
+        if r < 0.7:
+            case["ops"].append(["copyio", rng.choice(["r0", "r0", "r2", "r3"]), rng.choice(["s", "t"]), True,
+                                rng.random() < 0.75])
+        else:
+            case["ops"].append(["replace", "@wf", rng.choice(["s", "t"]), rng.choice(["r0", "r2", "r3"])])
+    return case
+
+
 def _macro_case(rng, tier):
     n = rng.randint(2, 4)
     mac = rng.choice(["MacU", "MacT"])
@@ -1075,6 +1134,10 @@ def gen_cases(rng, tier):
         yield _run_case(rng, tier)
     for _ in range(45 if quick else 1200):
         yield _nested_case(rng, tier)
+    for _ in range(40 if quick else 1000):
+        yield _keys_case(rng, tier)
+    for _ in range(30 if quick else 800):
+        yield _chain_case(rng, tier)
     if not quick:
         yield from _exhaustive()
     for lines in (["frobnicate 1 2", "replace 0 1", "copyio 0 1 2 3", "dag x"], ["cfg 1 1", "replace a b c", "dag 0 T 1"]):
@@ -1150,6 +1213,12 @@ def corpus():
     yield {"top": "wf", "children": [["a", "Pxy"], ["b", "Pxy"], ["c", "Pxy"]],
            "data": [["a", "o", "c", "x"], ["b", "o", "c", "x"]], "maps": {"in": [["b__z", "a__x"]]},
            "cands": [["r0", "Pxyz"]], "ops": [["replace", "@wf", "b", "r0"]]}
+    # keys of the IO view: `a` + `b__c` against `a__b` + `c`, no map at all
+    yield {"top": "wf", "children": [["a", "Kx"], ["a__b", "Kc"]], "data": [["a", "o", "a__b", "d"]],
+           "cands": [["r0", "Kbc"]], "ops": [["replace", "@wf", "a", "r0"]]}
+    # a value-link chain that gets stricter downstream: hard copy of the value "text"
+    yield {"top": "wf", "children": [["s", "Mpq"]], "data": [], "vals": [["s", "q", "text"], ["s", "p", 9]],
+           "cands": [["r0", "MacChain"]], "ops": [["copyio", "r0", "s", True, True], ["copyio", "r0", "s", True, False]]}
     # D8: recovery of the flow derivation on a cyclic data graph reverses firing order
     yield {"top": "wf", "children": [["a", "Pxy"], ["b", "Pxy"], ["c", "Pxy"]],
            "data": [["a", "o", "b", "x"], ["a", "o", "c", "x"]], "prewire": True, "cands": [],
